@@ -18,7 +18,8 @@ OCAML_FLAGS = '-rectypes -thread'
 RULE = ('(a) terrains built to drive the status tree through its hard cases — plateaus/ties (small ints), flat, single ridges '
         '(row/column/diagonal), staircases, monotone ramps in 8 directions (long insert-only / delete-only runs), checkerboards '
         '(alternating insert/delete), pits/peaks/rings around the observer, isolated spikes, "forests" of tall cells, random '
-        'one-decimal floats — on grid shapes 2..7 x 2..7 (thorough: every shape, every observer cell; quick: corners, edge '
+        'one-decimal floats, level plateaus / terraces / lakes at heights that are not float32-representable (0.1, 0.3, '
+        '1234.567, observer level with the plateau: exact gradient ties) — on grid shapes 2..7 x 2..7 (thorough: every shape, every observer cell; quick: corners, edge '
         'midpoints, centre of a seeded subset of shapes) plus larger grids (up to 12x15) for deep trees; cell sizes square / '
         'non-square / descending coordinates; observer_elev in {-2,0,1,2.5}; target_elev in {0,0.5,1}; dtypes '
         'float64/int64/int32; a stream of off-grid observers (nearest lookup incl. exact midpoints) and out-of-range observers '
@@ -30,9 +31,9 @@ RULE = ('(a) terrains built to drive the status tree through its hard cases — 
         'extracted CONCRETE tree model (Tree.v): new root and freed row of every insert/delete, the float returned by every '
         'query, and snapshots of the complete node arrays (every row ever handed out plus the dummy root and the NIL row: '
         'key, payload, cached maximum, colour, left/right/parent) after every update of short sequences and at ~48 evenly '
-        'spaced points of long ones; at the same points the real arrays are checked for a cached maximum above its subtree '
-        'maximum (oracle). The minimised input of the recorded defect of _delete_from_tree (45 updates, STALE_MAX_SEQ) is replayed '
-        'on every run and reported as KNOWN-FINDING as long as the concrete model reproduces the real trace exactly.')
+        'spaced points of long ones; the real arrays are checked for an inexact cached '
+        'maximum: after every update every cached maximum must EQUAL the maximum over its subtree (oracle). The minimised input '
+        'of the defect of _delete_from_tree fixed by e4337e3 (45 updates, STALE_MAX_SEQ) is replayed on every run.')
 TRUSTED = [
     'the red-black tree of viewshed.py:93-732 is modelled line by line in coq/C05/Tree.v (finite map row id -> node record; '
     'NIL_ID = -1 is an ordinary row whose colour / cached maximum are read and whose parent field is written, as in the '
@@ -42,37 +43,25 @@ TRUSTED = [
     '_rb_insert_fixup with a NIL grandparent, _delete_from_tree emptying the tree); the print() in phase 2 of the query is '
     'not modelled; _tree_successor is modelled by the only branch its call site can reach (_tree_minimum of the right child); '
     'row ids come from the idle stack of _viewshed_cpu_sweep modelled as a list',
-    'PROVED about that concrete model (PropsTree.v, all closed under the global context, all sizes / all inputs, partial '
-    'correctness = conditional on the model returning, i.e. no out-of-bounds guard and fuel not exhausted): rotations and '
-    'the whole _rb_insert_fixup loop preserve the tree invariant (links + parent pointers encode a binary tree, distinct '
-    'ids, every cached maximum = maximum of min3 over its subtree) and the in-order sequence; _insert_into_tree (descent, '
-    'attach, upward maximum propagation, fix-up) refines st_insert: abstraction (in-order key/payload list) of the result '
-    '= old abstraction with the new pair at the sorted position, invariant preserved; the query on a tree satisfying the '
-    'invariant returns a maximum m with (not m > g) = visible_q of the abstraction; _rb_delete_fixup and _delete_from_tree '
-    '(successor copy included) preserve links / in-order sequence / key order and refine del_key on the abstraction; '
-    'the same for the ONE-SIDED maximum invariant WGood (no cached maximum above its subtree maximum): implied by the '
-    'two-sided one, preserved by rotations / insert fix-up / _insert_into_tree, sufficient for the query theorem. '
-    'REFUTED (Example C05_tree_delete_max_not_preserved, and observed on the real arrays): _delete_from_tree does NOT '
-    're-establish "cached maximum = subtree maximum" — the skip conditions of the loop at viewshed.py:665-697 leave '
-    'ancestors\' maxima too LOW; harmless for the result because phase 2 of the query walks every nearer node (only the '
-    'shortcut is lost). GENUINE DEFECT (known finding rbtree-delete-stale-cached-max, Example C05_tree_refines_refuted, '
-    'reproduced on the jitted code): the harmful direction also occurs — after some delete sequences an ancestor keeps a '
-    'cached maximum ABOVE every value of its subtree (the repair loops of _delete_from_tree break / skip on equality tests '
-    'that assume exact ancestors) and the phase-1 shortcut then hides a visible cell; found by random search on the '
-    'extracted model (about 1 state in 10^7), never through viewshed() on a terrain so far. So '
-    'the composite statement "the concrete tree refines the abstract status structure for every operation sequence" '
-    '(Props tree_refines_status_full_statement / rbtree_refines_status_statement) is unclaimed and, for the code as '
-    'written, FALSE: "_delete_from_tree preserves the one-sided maximum invariant WGood" (premise of '
-    'C05_tree_query_refines_weak) fails; it holds for the patched code (fixes/C05-rbtree-delete-recompute-max.diff: zero '
-    'stale maxima in 6000 random sequences), for which the proof would go through the two-sided invariant. On the '
-    'unchanged code the refinement is covered only by the bounded theorem '
-    'C05_bounded_tree_refines_small and by correspondence (real tree vs concrete model row by row; real tree vs abstract '
-    'structure)',
+    'PROVED about that concrete model (PropsTree.v, all closed under the global context, all sizes / all inputs; partial '
+    'correctness = conditional on the model returning, i.e. no out-of-bounds guard and fuel not exhausted; only the query '
+    'is proved never to stop, C05_tree_query_total): rotations, _rb_insert_fixup, _insert_into_tree, _rb_delete_fixup and '
+    '_delete_from_tree (fixed code e4337e3: both repair loops recompute every ancestor; unlinking, successor copy, fix-up) '
+    'preserve the full tree invariant (links + parent pointers encode a binary tree, distinct ids, every cached maximum = '
+    'maximum of min3 over its subtree) and refine st_insert / del_key on the in-order abstraction; the query on a tree '
+    'with the invariant returns a maximum m with (not m > g) = visible_q; and the composition C05_rbtree_refines_status: '
+    'from _create_status_struct, for EVERY sequence of inserts / deletes / queries (keys above the dummy root, no key '
+    'inserted twice) the results agree with the abstract status structure of Sweep.v as long as the model returns. The '
+    'defect of the pre-fix loops (known finding rbtree-delete-stale-cached-max, fixed) is documented by Examples about the '
+    'explicitly named pre-fix variants del_up1_prefix / del_up2_prefix (C05_tree_delete_max_not_preserved, '
+    'C05_tree_refines_refuted). Still only bounded (C05_bounded_tree_refines_small) + correspondence: that the model never '
+    'stops on insert / delete (fuel 2*live+8 suffices, no guard fires), i.e. red-black balance facts',
     'premises of the tree theorems: > on gradients is a strict weak order on the whole gradient type (asymmetric, '
     '"not >" transitive) and < on keys is a strict weak order (irreflexive, transitive, negatively transitive) — true for '
-    'binary64 off NaN; SMALLEST_GRAD <= min3 of every node and <= the query gradient; for the query the phase-1 premise '
-    '(a nearer node whose min3 exceeds g also has its interpolated gradient exceed g — the code consults cached maxima only '
-    'to the left of the search path); == on gradients (used only by the maximum-repair loops of delete) is unconstrained',
+    'binary64 off NaN; SMALLEST_GRAD <= min3 of every inserted node and <= every query gradient; the dummy root has min3 '
+    'equivalent to SMALLEST_GRAD and is never hit; the phase-1 premise of the query (a node whose min3 exceeds g also has '
+    'its interpolated gradient exceed g — the code consults cached maxima only to the left of the search path), stated for '
+    'every payload in C05_rbtree_refines_status',
     'the query is modelled as a decision (exists a nearer node with min3 > g, or with interpolated gradient > g) instead of '
     'the running maximum started at SMALLEST_GRAD=-1e22 and the final test max <= g; identical for NaN-free gradients '
     '>= -1e22 (all gradients are atan values). Phase 1 of the code consults only the nodes on the left of the search path '
@@ -97,21 +86,16 @@ ASSUMPTIONS = [
     'no two simultaneously active cells have equal squared distance (the model reports DUPKEY; counted, expected 0)',
 ]
 PARTIAL = [
-    'tree_refines_status_full_statement / rbtree_refines_status_statement (the concrete red-black tree model of Tree.v '
-    'implements the abstract status structure for EVERY operation sequence): stated in PropsTree.v / Props.v, unclaimed. '
-    'Proved per operation (PropsTree.v): C05_tree_left_rotate_preserves, C05_tree_right_rotate_preserves, '
-    'C05_tree_insert_fixup_preserves, C05_tree_insert_refines, C05_tree_query_refines, C05_tree_delete_fixup_preserves, '
-    'C05_tree_delete_refines, and for the one-sided maximum invariant C05_tree_weak_invariant_rotations, '
-    'C05_tree_insert_refines_weak, C05_tree_query_refines_weak — all partial correctness (conditional on the model returning: no out-of-bounds guard, fuel not '
-    'exhausted; fuel sufficiency and red-black balance are not proved). The gap that prevents composing them over sequences '
-    'with deletes: C05_tree_delete_refines covers links / order / abstraction only, because the two-sided cached-maximum '
-    'invariant is false after _delete_from_tree (Example C05_tree_delete_max_not_preserved); what the query really needs is '
-    'the one-sided invariant WGood (no cached maximum above its subtree maximum: proved sufficient for the query, proved '
-    'preserved by rotations, fix-up and insert), and _delete_from_tree does NOT preserve it either: Example '
-    'C05_tree_refines_refuted (45 updates, then a visible key is reported hidden) = known finding '
-    'rbtree-delete-stale-cached-max, with a proposed patch. C05_tree_query_total proves fuel sufficiency for the query only. '
-    'Bounded: C05_bounded_tree_refines_small (vm_compute, integer instance: every sequence of <= 6 inserts/deletes, keys '
-    '1..5, gradients {0,1}; in-order sequence = sorted abstract status and 14 queries after every prefix)',
+    'the red-black tree refinement is claimed in the form C05_rbtree_refines_status (PropsTree.v): every operation '
+    'sequence, conditional on the model returning (result RStop = fuel exhausted / out-of-bounds guard / idle stack empty: '
+    'nothing claimed afterwards) and on the abstract domain (no key inserted twice). UNCLAIMED: the total version '
+    'tree_refines_status_full_statement (the model never stops on insert / delete: fuel sufficiency and the guards need the '
+    'red-black balance / colour invariants, which are not proved; the query is proved total) and the literal Prop '
+    'rbtree_refines_status_statement of Props.v (stated for total functions). Bounded supplement: '
+    'C05_bounded_tree_refines_small (vm_compute, integer instance: every sequence of <= 6 inserts/deletes, keys 1..5, '
+    'gradients {0,1}; no stop, in-order sequence = sorted abstract status and 14 queries after every prefix). The weak '
+    '(one-sided) invariant theorems C05_tree_weak_invariant_rotations / _insert_refines_weak / _query_refines_weak remain as '
+    'by-products; C05_tree_delete_refines_structure is the structure-only delete theorem',
     'C05_sweep_eq_spec is conditional on the sweep not leaving the modelled domain (result inr _: no duplicate active key, '
     'no delete of an absent key); that this never happens for real grids is checked per case by the extracted model '
     '(DUPKEY / NOTFOUND counters), not proved',
@@ -126,29 +110,24 @@ LEVEL_TEXT = ('Proved for all inputs (any grid size, any terrain/observer/height
               'sweep = O(n^2) reference (C05_sweep_eq_spec_full unconditional on interpolation facts; C05_sweep_eq_spec with '
               'the clean property statement under phase1_sound/own_span), that the stable insertion sort yields an '
               'inversion-free permutation under a strict weak order, and the 0..180 / level=90 range of the vertical angle '
-              'over the reals. The red-black tree itself is inside the model (coq/C05/Tree.v, line by line) and proved, for all '
-              'sizes and inputs (conditional on the model returning): rotations and insert fix-up preserve the tree invariant '
-              'incl. every cached maximum (C05_tree_left/right_rotate_preserves, C05_tree_insert_fixup_preserves); '
-              '_insert_into_tree refines st_insert on the in-order abstraction and preserves the invariant '
-              '(C05_tree_insert_refines); the query on a tree with the invariant = the abstract two-phase query '
-              '(C05_tree_query_refines); _rb_delete_fixup and _delete_from_tree refine del_key on links / order / abstraction '
-              '(C05_tree_delete_fixup_preserves, C05_tree_delete_refines). Refuted for the code as written: delete '
-              're-establishes the cached maxima (they can end up too low — harmless, witness in PropsTree.v); therefore the '
-              'insert / rotation / query theorems are also proved for the one-sided invariant "no cached maximum too high" '
-              '(C05_tree_weak_invariant_rotations, C05_tree_insert_refines_weak, C05_tree_query_refines_weak). Bounded '
-              '(vm_compute; every sequence of <= 6 inserts/deletes over keys 1..5, gradients {0,1}, 14 queries after every '
-              'prefix): concrete tree = abstract status structure (C05_bounded_tree_refines_small). The query never runs '
-              'out of fuel (C05_tree_query_total). The composite refinement over operation sequences is NOT a theorem of the '
-              'code as written: _delete_from_tree can leave a cached maximum too high, and a visible key is then reported '
-              'hidden (Example C05_tree_refines_refuted = known finding rbtree-delete-stale-cached-max, reproduced on the '
-              'jitted functions, patch proposed; not reproduced through viewshed() on a terrain). Not proved: fuel sufficiency '
-              'of insert / delete, float rounding facts. Correspondence: viewshed() vs extracted model, visible '
+              'over the reals. The red-black tree itself is inside the model (coq/C05/Tree.v, line by line, fixed code e4337e3) '
+              'and proved for all sizes and inputs, conditional on the model returning: rotations, insert (descent, attach, '
+              'maximum propagation, fix-up) and delete (unlinking, recomputation of every ancestor, successor copy, fix-up) '
+              'preserve the full tree invariant incl. every cached maximum and refine st_insert / del_key on the in-order '
+              'abstraction (C05_tree_*_preserves, C05_tree_insert_refines, C05_tree_delete_refines); the query equals the '
+              'abstract two-phase query and never runs out of fuel (C05_tree_query_refines, C05_tree_query_total); and for '
+              'EVERY operation sequence from the initial tree the concrete results agree with the abstract status structure '
+              '(C05_rbtree_refines_status). Bounded (vm_compute; every sequence of <= 6 inserts/deletes over keys 1..5, '
+              'gradients {0,1}, 14 queries after every prefix): the model does not stop and agrees '
+              '(C05_bounded_tree_refines_small). The defect found in the pre-fix delete loops (a visible key reported hidden '
+              'after some delete sequences; fixed in e4337e3) is kept as Examples about the pre-fix loop variants. Not '
+              'proved: fuel sufficiency / guards of insert and delete (red-black balance), float rounding facts. '
+              'Correspondence: viewshed() vs extracted model, visible '
               'mask and angles bit-exact; the jitted tree functions vs the concrete tree model (node arrays row by row, query '
               'floats) and vs the abstract structure; oracles: independent Python reference, cached-maximum check on the '
               'real arrays.')
 LEVEL_NOTE = ('Trusted: Coq kernel, extraction (ExtrOcamlBasic + ExtrOCamlFloats), the OCaml driver handing Stdlib.atan to '
-              'the model, the behaviour of the status tree over sequences with deletes (per-operation theorems, bounded run and '
-              'stress tests; its cached-maximum repair is defective, see the known finding), the line-by-line reading of the jitted tree code as Tree.v '
+              'the model, that the tree model never stops on insert / delete (bounded run + every correspondence case), the line-by-line reading of the jitted tree code as Tree.v '
               '(compared row by row on every run), float order laws as premises, the Python harness and oracle.')
 
 PI = math.pi
@@ -498,10 +477,11 @@ class RealTree(object):
     def visible(self, key, ang, grad):
         return bool(self.max_grad(key, ang, grad) <= grad)
 
-    def stale_high(self):
-        """a node whose cached maximum exceeds the min-gradient of every node of its subtree (the phase-1 shortcut of
-        the query would then hide a visible cell): (row, key, cached, true subtree maximum) or None.  The converse
-        (cached maximum BELOW the subtree maximum) does occur after _delete_from_tree and is harmless."""
+    def stale_max(self):
+        """a node whose cached maximum differs from the maximum of min(g0,g1,g2) over its subtree (too high: the
+        phase-1 shortcut of the query would hide a visible cell; too low: the shortcut is lost):
+        (row, key, cached, true subtree maximum) or None.  Since the fix e4337e3 of _delete_from_tree the cached
+        maxima are exact after every update."""
         bad = []
 
         def rec(i):
@@ -513,7 +493,7 @@ class RealTree(object):
                 r = rec(int(ch))
                 if r is not None and r > m:
                     m = r
-            if v[7] > m and not bad:
+            if v[7] != m and not bad:
                 bad.append((i, float(v[0]), float(v[7]), float(m)))
             return m
         rec(int(self.root))
@@ -571,7 +551,7 @@ def run_tree_real(ops):
             res.append(-1)
             detail.append(('ERR',))
         if stale is None and o[0] in ('I', 'D') and res[-1] != -1:
-            sh = t.stale_high()
+            sh = t.stale_max()
             if sh is not None:
                 stale = (j,) + sh
         if j in snaps:
@@ -819,9 +799,6 @@ def forked_run(cases):
     return results, crash
 
 
-KNOWN_STALE_MAX = 'rbtree-delete-stale-cached-max'
-
-
 def check_tree_case(ctx, case, real):
     """oracle for one operation sequence -> None, or the failure (what, replay dict) to be reported by
     compare_tree_model (which decides whether it is the known defect of the unchanged code)"""
@@ -837,22 +814,26 @@ def check_tree_case(ctx, case, real):
                     dict(case, op_index=j, got=a, expected=b))
     if real[2] is not None:
         j, row, key, cached, true = real[2]
-        return ('status tree: after op #%d %r (%s) row %d (key %r) caches the maximum %r but no node of its subtree has '
-                'a min-gradient above %r: the phase-1 shortcut of the query can hide a visible cell'
-                % (j, ops[j], case['pattern'], row, key, cached, true), dict(case, op_index=j))
+        return ('status tree: after op #%d %r (%s) row %d (key %r) caches the maximum %r but the maximum of min(g0,g1,g2) '
+                'over its subtree is %r (%s)' % (j, ops[j], case['pattern'], row, key, cached, true,
+                                                 'too high: the phase-1 shortcut of the query can hide a visible cell'
+                                                 if cached > true else 'too low: stale after an update'),
+                dict(case, op_index=j))
     return None
 
 
 def report_tree_failure(ctx, failure, same_as_concrete_model):
-    """A wrong answer / a cached maximum above its subtree maximum of the real tree.  When the concrete tree model
-    (= the unchanged code, line by line) produces exactly the same trace on this input, this is the recorded defect of
-    _delete_from_tree (stale cached maxima survive the repair loops); otherwise it is something new."""
+    """a wrong answer / an inexact cached maximum of the real tree (same_as_concrete_model: the extracted concrete model
+    reproduces the real trace exactly, i.e. the model has the same defect)"""
     what, replay = failure
-    ctx.violation('oracle', what, replay, key=KNOWN_STALE_MAX if same_as_concrete_model else None)
+    if same_as_concrete_model:
+        what += ' [the concrete tree model of Tree.v reproduces this trace: model and code share the defect]'
+    ctx.violation('oracle', what, replay)
 
 
-# the minimised input of the recorded defect: after these 45 updates the tree hides key 16 at gradient 2.5 although no
-# nearer live node has a gradient above 2 (a cached maximum 3 survives the deletion of the node it came from)
+# regression input of the defect fixed by e4337e3 (known finding rbtree-delete-stale-cached-max): before the fix, after
+# these 45 updates the tree hid key 16 at gradient 2.5 although no nearer live node has a gradient above 2 (a cached
+# maximum 3 survived the deletion of the node it came from)
 STALE_MAX_SEQ = ('I2:2 I8:4 I12:4 I13:2 I9:3 D12 I5:1 I10:2 D2 I12:1 D8 I6:3 I8:2 D9 I9:1 D10 D13 D6 I16:3 D9 I9:2 D12 I13:2 '
                  'D8 I7:4 I6:3 I10:1 I8:1 D6 D10 D5 I11:3 I15:0 I12:2 D9 I3:3 D7 I5:4 D3 I14:1 D13 I13:3 D11 D13 D5')
 
@@ -867,7 +848,7 @@ def stale_max_case():
             ops.append(['D', float(tok[1:])])
     ops.append(['Q', 16.0, 0.0, 2.5])
     ops.append(['Q', 16.0, 0.0, 3.5])
-    return dict(fn='treeops', pattern='known-stale-max', grads='const', n=16, ops=ops)
+    return dict(fn='treeops', pattern='regress-stale-max', grads='const', n=16, ops=ops)
 
 
 def gen_tree_cases(ctx):
@@ -907,10 +888,8 @@ def compare_tree_model(ctx, pending):
             j, why = describe_ctree_diff(detail, cm, ops_t)
             same = why is None
             if failure is not None:
-                ctx.count('treeops/known-stale-max' if same else 'treeops/oracle-failure')
+                ctx.count('treeops/oracle-failure')
                 report_tree_failure(ctx, failure, same)
-                if same:
-                    continue            # the abstract structure cannot agree with a wrong answer of the unchanged code
             if why is not None:
                 ctx.count('treeops/concrete-model-differs')
                 ctx.violation('correspondence', 'status tree vs concrete red-black tree model (Tree.v): %s' % why,
@@ -1044,6 +1023,31 @@ def gen_cases(ctx):
         fam = ['ramp', 'checker', 'peak', 'pit', 'dec', 'plateau', 'stair', 'ring'][i % 8]
         vr, vc = rng.choice(observer_cells(R, C, False) + [(rng.randrange(R), rng.randrange(C))])
         yield mk_case(rng, fam, R, C, vr, vc)
+    # level plateaus / lakes / terraces of heights that are NOT float32-representable, observer level with the water:
+    # every gradient on the level part is an exact tie (0), so any elevation that passes through a narrower float type
+    # on one side of a comparison (e.g. the pre-loaded sweep-line cells east of the observer) hides visible cells
+    nlake = 24 if quick else 400
+    for i in range(nlake):
+        R, C = rng.randint(3, 7), rng.randint(4, 8)
+        hgt = [0.1, 0.3, 1234.567, 0.1, 2.2, 1e-3][i % 6]
+        vr, vc = rng.randrange(R), rng.randrange(max(1, C - 2))
+        case = mk_case(rng, 'flat', R, C, vr, vc, res=rng.choice([(1.0, 1.0), (2.0, 1.0), (1.0, 0.5)]), oe=0, te=0,
+                       dtype='float64')
+        g = [[hgt] * C for _ in range(R)]
+        kind = i % 3
+        if kind == 1:            # a terrace: one side higher by an inexact step
+            for r in range(R):
+                for c in range(C):
+                    if c > vc + 1 + (r % 2):
+                        g[r][c] = hgt + 0.3
+        elif kind == 2:          # a lake with a few islands / pits away from the observer's row
+            for _ in range(rng.randint(1, 3)):
+                r, c = rng.randrange(R), rng.randrange(C)
+                if r != vr and (r, c) != (vr, vc):
+                    g[r][c] = hgt + rng.choice([0.7, -0.4, 1.1])
+        case['grid'] = g
+        case['family'] = 'lake'
+        yield case
     # observer lookup and range validation
     nedge = 60 if quick else 400
     for i in range(nedge):
@@ -1103,7 +1107,7 @@ def search(ctx):
                 break
         cases += list(gen_tree_cases(ctx))[:600]
         _v, tpending, _c = process(ctx, cases)
-        ctx.model = model               # needed to tell the recorded defect of the unchanged code from a new one
+        ctx.model = model
         compare_tree_model(ctx, tpending)
     finally:
         ctx.tier = old
